@@ -83,6 +83,9 @@ GROUPS = {
             H("strslice_with_bounds_stays_inside", ["C15", "C14", "C06"], "StringSlice::with_bounds, as_str", bound="string data of <= 3 bytes of valid UTF-8 (1-, 2- and 3-byte characters); all bounds/offsets full-domain usize"),
             H("strslice_split_stays_inside", ["C15", "C06"], "StringSlice::split, as_str", bound="string data of <= 3 bytes of valid UTF-8 (1-, 2- and 3-byte characters); all bounds/offsets full-domain usize"),
             H("strslice_u16_conversion", ["C15"], "StringSlice::try_convert, as_str", bound="string data of <= 3 bytes of valid UTF-8 (1-, 2- and 3-byte characters); all bounds/offsets full-domain usize"),
+            H("strslice4_new_validates", ["C15", "C06"], "StringSlice::<usize>::new, as_str", bound="string data of <= 4 bytes of valid UTF-8 (1- to 4-byte characters); all bounds/offsets full-domain usize", thorough_only=True),
+            H("strslice4_with_bounds_stays_inside", ["C15", "C14", "C06"], "StringSlice::with_bounds, as_str", bound="string data of <= 4 bytes of valid UTF-8 (1- to 4-byte characters); all bounds/offsets full-domain usize", thorough_only=True),
+            H("strslice4_split_stays_inside", ["C15", "C06"], "StringSlice::split, as_str", bound="string data of <= 4 bytes of valid UTF-8 (1- to 4-byte characters); all bounds/offsets full-domain usize", thorough_only=True),
         ],
     },
     "K-varint": {
